@@ -134,8 +134,8 @@ def cases(draw, switches):
     depth = draw(st.integers(1, 3))
     extra = []
     data = None
-    if slot in ("width", "read_sub", "input_sub") and "no_convertible_in_width_read_input" in switches:
-        cg.excluded.hit("no_convertible_in_width_read_input")
+    if slot in ("read_sub", "input_sub") and "no_convertible_in_read_input_subscripts" in switches:
+        cg.excluded.hit("no_convertible_in_read_input_subscripts")
         slot = "assign"
     if slot == "ifelse" and "no_convertible_in_ifelse_cond" in switches:
         cg.excluded.hit("no_convertible_in_ifelse_cond")
